@@ -36,6 +36,8 @@ def may_raise_expr(e) -> bool:
     if e is None:
         return False
     for n in ast.walk(e):
+        if isinstance(n, ast.Call) and is_benign_call(n):
+            continue
         if isinstance(n, (ast.Call, ast.Await, ast.Yield, ast.YieldFrom)):
             return True
         if isinstance(n, ast.Subscript) and isinstance(n.ctx, ast.Load):
@@ -43,6 +45,25 @@ def may_raise_expr(e) -> bool:
         if isinstance(n, ast.BinOp) and isinstance(n.op, (ast.Div, ast.FloorDiv, ast.Mod, ast.Pow)):
             return True
     return False
+
+
+BENIGN_PREFIXES = ("logging.", "logger.", "log.", "_logger.", "_log.", "LOGGER.", "LOG.", "warnings.warn", "self.logger.", "self._logger.",
+                   "self.log.", "self._log.")
+BENIGN_NAMES = {"print", "len", "isinstance", "repr", "str", "id", "type", "bool", "callable", "hasattr"}
+
+
+def is_benign_call(n: ast.Call) -> bool:
+    """Calls that emit diagnostics or are total on any argument: they do not count as a point where a compile can
+    fail (a log handler that raises is swallowed by logging itself)."""
+    d = dotted(n.func) or ""
+    if d in BENIGN_NAMES and all(isinstance(a, (ast.Name, ast.Constant, ast.Attribute)) for a in n.args):
+        return True
+    return any(d.startswith(p) for p in BENIGN_PREFIXES)
+
+
+def is_diagnostic_stmt(st) -> bool:
+    return isinstance(st, ast.Expr) and isinstance(st.value, ast.Call) and (
+        any((dotted(st.value.func) or "").startswith(p) for p in BENIGN_PREFIXES) or dotted(st.value.func) == "print")
 
 
 def may_raise_stmt(st) -> bool:
